@@ -650,7 +650,9 @@ Qed.
 
 Lemma pstep_thread_inv c t ch c' : PInv c -> pstep_thread c t ch = Some c' -> PInv c'.
 Proof.
-  intros HI Hs. unfold pstep_thread in Hs.
+  intros HI Hs0. unfold pstep_thread in Hs0.
+  destruct (pstep_thread_acc c t ch) as [[c0 accs]|] eqn:Hs; [|discriminate]. injection Hs0 as ->.
+  unfold pstep_thread_acc in Hs.
   destruct (nth_error (p_threads c) t) as [th|] eqn:Hth; [|discriminate].
   pose proof (pi_pc _ HI _ _ Hth) as Hpc.
   pose proof (fresh_unseen _ _ _ HI Hth) as (Hfresh1 & Hfresh2).
@@ -666,7 +668,7 @@ Proof.
   - (* GIdle: the next operation of the program *)
     destruct prog as [|[|k| |] rest]; [discriminate| | | |].
     + (* Get invoked *)
-      injection Hs as <-.
+      injection Hs as <- <-.
       apply (inv_update c t _ (PThread rest GCheckNew held fresh got) (p_bag c) [PEInvGet t] HI Hth); [simpl; lia|..]; simpl.
       * intros v _. left. counts.
       * intros v [H|H]; auto.
@@ -675,7 +677,7 @@ Proof.
       * exact I.
       * split; [exact I|apply (pi_trace _ HI)].
     + (* Put of a held item *)
-      destruct (nth_error held k) as [x|] eqn:Hk; injection Hs as <-.
+      destruct (nth_error held k) as [x|] eqn:Hk; injection Hs as <- <-.
       * pose proof (nth_error_In _ _ Hk) as Hxin.
         apply (inv_update c t _ (PThread rest (PutCall x) (remove_nth k held) fresh got) (p_bag c) [PEInvPut t x] HI Hth); [simpl; lia|..]; simpl.
         -- intros v _. left. pose proof (cnt_remove_nth held k x v Hk). counts.
@@ -694,7 +696,7 @@ Proof.
         -- exact I.
         -- apply (pi_trace _ HI).
     + (* Put of a newly allocated item *)
-      injection Hs as <-.
+      injection Hs as <- <-.
       apply (inv_update c t _ (PThread rest (PutCall (Tok t fresh)) held (S fresh) got) (p_bag c) [PEInvPut t (Tok t fresh)] HI Hth); [simpl; lia|..]; simpl.
       * intros v _. destruct (val_eq_dec (Tok t fresh) v) as [<-|N].
         -- right. split; [exact Hfresh1|]. counts.
@@ -706,7 +708,7 @@ Proof.
       * exact I.
       * split; [exact I|apply (pi_trace _ HI)].
     + (* Put of the zero value *)
-      injection Hs as <-.
+      injection Hs as <- <-.
       apply (inv_update c t _ (PThread rest (PutCall Zero) held fresh got) (p_bag c) [PEInvPut t Zero] HI Hth); [simpl; lia|..]; simpl.
       * intros v Hv. left. destruct v; [contradiction|]. counts.
       * intros v [H|H]; auto. unfold thread_vals in *; simpl in *. rewrite app_nil_r.
@@ -716,7 +718,7 @@ Proof.
       * exact I.
       * split; [exact I|apply (pi_trace _ HI)].
   - (* GCheckNew: if p.New == nil *)
-    destruct (p_new c) eqn:Hnew; injection Hs as <-; rewrite <- Hnew.
+    destruct (p_new c) eqn:Hnew; injection Hs as <- <-; rewrite <- Hnew.
     + apply (inv_update c t _ (PThread prog GPool held fresh got) (p_bag c) [] HI Hth); [simpl; lia|..]; simpl.
       * intros v _. left. counts.
       * intros v [H|H]; auto.
@@ -734,7 +736,7 @@ Proof.
       * apply (pi_trace _ HI).
   - (* GPool: x := p.pool.Get() *)
     simpl in Hpc. destruct ch as [i|].
-    + destruct (nth_error (p_bag c) i) as [x|] eqn:Hi; [|discriminate]. injection Hs as <-.
+    + destruct (nth_error (p_bag c) i) as [x|] eqn:Hi; [|discriminate]. injection Hs as <- <-.
       pose proof (nth_error_In _ _ Hi) as Hxin.
       apply (inv_update c t _ (PThread prog (GRet x SrcBag) held fresh got) (remove_nth i (p_bag c)) [PETake t x] HI Hth); [simpl; lia|..]; simpl.
       * intros v _. left. pose proof (cnt_remove_nth (p_bag c) i x v Hi). counts.
@@ -746,7 +748,7 @@ Proof.
       * left. reflexivity.
       * split; [|apply (pi_trace _ HI)]. split; [exact Hpc|].
         pose proof (pi_bag _ HI x). assert (cnt (p_bag c) x > 0) by (apply cnt_pos_In; exact Hxin). lia.
-    + injection Hs as <-.
+    + injection Hs as <- <-.
       apply (inv_update c t _ (PThread prog GNew held fresh got) (p_bag c) [PEMiss t] HI Hth); [simpl; lia|..]; simpl.
       * intros v _. left. counts.
       * intros v [H|H]; auto.
@@ -755,7 +757,7 @@ Proof.
       * exact Hpc.
       * split; [exact I|apply (pi_trace _ HI)].
   - (* GNew: p.New() *)
-    simpl in Hpc. injection Hs as <-.
+    simpl in Hpc. injection Hs as <- <-.
     apply (inv_update c t _ (PThread prog (GRet (Tok t fresh) SrcNew) held (S fresh) got) (p_bag c) [PENew t (Tok t fresh)] HI Hth); [simpl; lia|..]; simpl.
     + intros v _. destruct (val_eq_dec (Tok t fresh) v) as [<-|N].
       * right. split; [exact Hfresh1|]. counts.
@@ -768,7 +770,7 @@ Proof.
     + left. reflexivity.
     + split; [|apply (pi_trace _ HI)]. split; [exact Hpc|]. split; [eauto|exact Hfresh2].
   - (* GRet: return *)
-    simpl in Hpc. injection Hs as <-.
+    simpl in Hpc. injection Hs as <- <-.
     apply (inv_update c t _ (PThread prog GIdle (held ++ [v]) fresh (got ++ [v])) (p_bag c) [PERetGet t v src] HI Hth); [simpl; lia|..]; simpl.
     + intros v0 _. left. counts.
     + intros v0 [H|H]; auto. right. left. unfold thread_vals in *; simpl in *. rewrite app_nil_r in H. exact H.
@@ -778,7 +780,7 @@ Proof.
     + exact I.
     + split; [|apply (pi_trace _ HI)]. destruct src; exact Hpc.
   - (* PutCall: p.pool.Put(x) *)
-    injection Hs as <-.
+    injection Hs as <- <-.
     apply (inv_update c t _ (PThread prog GIdle held fresh got) (v :: p_bag c) [PEPut t v] HI Hth); [simpl; lia|..]; simpl.
     + intros v0 _. left. counts.
     + intros v0 [[<-|H]|H]; auto.
@@ -823,18 +825,71 @@ Proof.
   apply IH. destruct (pstep c a) as [c'|] eqn:E; auto. eapply pstep_inv; eauto.
 Qed.
 
+(* ---- the accesses reported by a step are faithful, and none is a plain write ---- *)
+
+(* One step of goroutine t, read off the step function itself:
+   - every reported access is a plain READ of New / of the inner pool's New, or a call into sync.Pool;
+   - the field New is unchanged; the bag is unchanged unless a call into sync.Pool is reported;
+   - no other goroutine's local state changes;
+   - a step that reports no read of New does not depend on New (it does the same with any other value of
+     the field), and a step that reports no call into sync.Pool does not depend on the bag. *)
+Lemma pstep_thread_acc_sound c t ch c' accs :
+  pstep_thread_acc c t ch = Some (c', accs) ->
+  (forall a, In a accs -> a = PlainRead FNew \/ a = PlainRead FPoolNew \/ a = PoolInternal) /\
+  p_new c' = p_new c /\
+  (~ In PoolInternal accs -> p_bag c' = p_bag c) /\
+  (forall t', t' <> t -> nth_error (p_threads c') t' = nth_error (p_threads c) t') /\
+  (~ In (PlainRead FNew) accs -> forall b, pstep_thread_acc (with_new b c) t ch = Some (with_new b c', accs)) /\
+  (~ In PoolInternal accs -> forall bag, pstep_thread_acc (with_bag bag c) t ch = Some (with_bag bag c', accs)).
+Proof.
+  unfold pstep_thread_acc, with_new, with_bag. simpl.
+  destruct (nth_error (p_threads c) t) as [th|] eqn:Hth; [|discriminate].
+  assert (OT : forall th' t', t' <> t -> nth_error (set_pthread (p_threads c) t th') t' = nth_error (p_threads c) t').
+  { intros th' t' N. apply nth_error_pset_other. exact N. }
+  assert (A0 : forall a : paccess, In a [] -> a = PlainRead FNew \/ a = PlainRead FPoolNew \/ a = PoolInternal) by (intros a []).
+  assert (A1 : forall a, In a [PlainRead FNew] -> a = PlainRead FNew \/ a = PlainRead FPoolNew \/ a = PoolInternal)
+    by (intros a [<-|[]]; auto).
+  assert (A2 : forall a, In a [PoolInternal] -> a = PlainRead FNew \/ a = PlainRead FPoolNew \/ a = PoolInternal)
+    by (intros a [<-|[]]; auto).
+  assert (A3 : forall a, In a [PoolInternal; PlainRead FPoolNew] -> a = PlainRead FNew \/ a = PlainRead FPoolNew \/ a = PoolInternal)
+    by (intros a [<-|[<-|[]]]; auto).
+  destruct (p_pc th) as [| | | |v src|v].
+  - destruct (p_prog th) as [|[|k| |] rest]; [discriminate| | | |].
+    + intros [= <- <-]. simpl. repeat split; auto.
+    + destruct (nth_error (p_held th) k) as [x|]; intros [= <- <-]; simpl; repeat split; auto.
+    + intros [= <- <-]. simpl. repeat split; auto.
+    + intros [= <- <-]. simpl. repeat split; auto.
+  - destruct (p_new c); intros [= <- <-]; simpl; repeat split; auto;
+      try (intro H; exfalso; apply H; left; reflexivity).
+  - destruct ch as [i|].
+    + destruct (nth_error (p_bag c) i) as [x|]; [|discriminate]. intros [= <- <-]. simpl. repeat split; auto;
+        try (intro H; exfalso; apply H; left; reflexivity).
+    + intros [= <- <-]. simpl. repeat split; auto; try (intro H; exfalso; apply H; left; reflexivity).
+  - intros [= <- <-]. simpl. repeat split; auto; try (intro H; exfalso; apply H; left; reflexivity).
+  - intros [= <- <-]. simpl. repeat split; auto.
+  - intros [= <- <-]. simpl. repeat split; auto; try (intro H; exfalso; apply H; left; reflexivity).
+Qed.
+
+(* the same in the form stated as C18_pool_step_accesses: what is NOT reported does not happen *)
+Theorem pool_step_accesses_faithful c t ch c' accs :
+  pstep_thread_acc c t ch = Some (c', accs) ->
+  pstep_thread c t ch = Some c' /\
+  (~ In (PlainWrite FNew) accs -> p_new c' = p_new c) /\
+  (~ In PoolInternal accs -> p_bag c' = p_bag c) /\
+  (forall t', t' <> t -> nth_error (p_threads c') t' = nth_error (p_threads c) t') /\
+  (~ In (PlainRead FNew) accs -> ~ In (PlainWrite FNew) accs ->
+     forall b, pstep_thread_acc (with_new b c) t ch = Some (with_new b c', accs)) /\
+  (~ In PoolInternal accs -> forall bag, pstep_thread_acc (with_bag bag c) t ch = Some (with_bag bag c', accs)).
+Proof.
+  intro E. destruct (pstep_thread_acc_sound _ _ _ _ _ E) as (_ & H1 & H2 & H3 & H4 & H5).
+  split; [unfold pstep_thread; rewrite E; reflexivity|]. repeat split; auto.
+Qed.
+
 Lemma pstep_new c a c' : pstep c a = Some c' -> p_new c' = p_new c.
 Proof.
   destruct a as [t ch|i]; simpl.
-  - unfold pstep_thread. destruct (nth_error (p_threads c) t) as [th|]; [|discriminate].
-    destruct (p_pc th) as [| | | |v src|v].
-    + destruct (p_prog th) as [|[|k| |] rest]; try discriminate; try (intros [= <-]; reflexivity).
-      destruct (nth_error (p_held th) k); intros [= <-]; reflexivity.
-    + destruct (p_new c); intros [= <-]; reflexivity.
-    + destruct ch as [i|]; [destruct (nth_error (p_bag c) i); [|discriminate]|]; intros [= <-]; reflexivity.
-    + intros [= <-]; reflexivity.
-    + intros [= <-]; reflexivity.
-    + intros [= <-]; reflexivity.
+  - unfold pstep_thread. destruct (pstep_thread_acc c t ch) as [[c0 accs]|] eqn:E; [|discriminate].
+    intros [= <-]. apply (pstep_thread_acc_sound _ _ _ _ _ E).
   - destruct (nth_error (p_bag c) i); [|discriminate]. intros [= <-]; reflexivity.
 Qed.
 
@@ -847,11 +902,32 @@ Proof.
   rewrite G. reflexivity.
 Qed.
 
-(* No step of Get or Put writes a shared plain field: the only plain accesses are reads of New. *)
-Theorem pool_plain_accesses_are_reads c t a : pool_next_access c t = Some a -> a = PlainRead FNew.
+(* Every access made in any run (from any configuration) is a plain read or a call into sync.Pool. *)
+Lemma pool_accesses_kinds s : forall c t a, In (t, a) (pool_accesses c s) ->
+  a = PlainRead FNew \/ a = PlainRead FPoolNew \/ a = PoolInternal.
 Proof.
-  unfold pool_next_access. destruct (nth_error (p_threads c) t) as [th|]; [|discriminate].
-  destruct (p_pc th); intros [= <-]; reflexivity.
+  induction s as [|[t0 ch|i] s IH]; intros c t a Hin; simpl in Hin.
+  - destruct Hin.
+  - destruct (pstep_thread_acc c t0 ch) as [[c' accs]|] eqn:E; [|eauto].
+    apply in_app_iff in Hin as [Hin|Hin]; [|eauto].
+    apply in_map_iff in Hin as (a0 & [= <- <-] & Hin).
+    apply (pstep_thread_acc_sound _ _ _ _ _ E). exact Hin.
+  - eauto.
+Qed.
+
+(* No step of Get or Put, in any run, writes a shared plain field; hence no two accesses conflict:
+   Get and Put are free of data races given that sync.Pool synchronises its own calls. *)
+Theorem pool_no_plain_write new progs s :
+  p_new (prun (pinit new progs) s) = new /\
+  (forall t a, In (t, a) (pool_accesses (pinit new progs) s) ->
+     a = PlainRead FNew \/ a = PlainRead FPoolNew \/ a = PoolInternal) /\
+  (forall t1 a1 t2 a2, In (t1, a1) (pool_accesses (pinit new progs) s) ->
+     In (t2, a2) (pool_accesses (pinit new progs) s) -> ~ conflicting a1 a2).
+Proof.
+  split; [apply pool_new_constant|]. split; [intros t a; apply pool_accesses_kinds|].
+  intros t1 a1 t2 a2 H1 H2 (f & [(E & _)|(E & _)]).
+  - apply pool_accesses_kinds in H1. subst a1. destruct H1 as [H|[H|H]]; discriminate.
+  - apply pool_accesses_kinds in H2. subst a2. destruct H2 as [H|[H|H]]; discriminate.
 Qed.
 
 (* ---- ownership ---- *)
@@ -945,7 +1021,9 @@ Lemma pstep_thread_shape c t ch c' : pstep_thread c t ch = Some c' ->
     p_threads c' = set_pthread (p_threads c) t th' /\ p_trace c' = evs ++ p_trace c /\
     ((p_got th' = p_got th /\ no_ret evs) \/ exists v src, p_got th' = p_got th ++ [v] /\ evs = [PERetGet t v src]).
 Proof.
-  unfold pstep_thread. destruct (nth_error (p_threads c) t) as [th|] eqn:Hth; [|discriminate].
+  unfold pstep_thread. destruct (pstep_thread_acc c t ch) as [[c0 accs]|] eqn:Hs; [|discriminate].
+  intros [= <-]. revert Hs. unfold pstep_thread_acc.
+  destruct (nth_error (p_threads c) t) as [th|] eqn:Hth; [|discriminate].
   assert (fin : forall th' evs,
             p_got th' = p_got th -> no_ret evs ->
             exists th0 th'0 evs0, Some th = Some th0 /\
@@ -957,20 +1035,20 @@ Proof.
   { intros e He t0 v src [E|[]]. eapply He; eauto. }
   destruct (p_pc th) as [| | | |v src|v].
   - destruct (p_prog th) as [|[|k| |] rest]; [discriminate| | | |].
-    + intros [= <-]. simpl. apply (fin _ [PEInvGet t]); auto. apply N1. discriminate.
-    + destruct (nth_error (p_held th) k) as [x|]; intros [= <-]; simpl.
+    + intros [= <- <-]. simpl. apply (fin _ [PEInvGet t]); auto. apply N1. discriminate.
+    + destruct (nth_error (p_held th) k) as [x|]; intros [= <- <-]; simpl.
       * apply (fin _ [PEInvPut t x]); auto. apply N1. discriminate.
       * apply (fin _ []); auto.
-    + intros [= <-]. simpl. apply (fin _ [PEInvPut t (Tok t (p_fresh th))]); auto. apply N1. discriminate.
-    + intros [= <-]. simpl. apply (fin _ [PEInvPut t Zero]); auto. apply N1. discriminate.
-  - destruct (p_new c); intros [= <-]; simpl; apply (fin _ []); auto.
+    + intros [= <- <-]. simpl. apply (fin _ [PEInvPut t (Tok t (p_fresh th))]); auto. apply N1. discriminate.
+    + intros [= <- <-]. simpl. apply (fin _ [PEInvPut t Zero]); auto. apply N1. discriminate.
+  - destruct (p_new c); intros [= <- <-]; simpl; apply (fin _ []); auto.
   - destruct ch as [i|].
-    + destruct (nth_error (p_bag c) i) as [x|]; [|discriminate]. intros [= <-]. simpl.
+    + destruct (nth_error (p_bag c) i) as [x|]; [|discriminate]. intros [= <- <-]. simpl.
       apply (fin _ [PETake t x]); auto. apply N1. discriminate.
-    + intros [= <-]. simpl. apply (fin _ [PEMiss t]); auto. apply N1. discriminate.
-  - intros [= <-]. simpl. apply (fin _ [PENew t (Tok t (p_fresh th))]); auto. apply N1. discriminate.
-  - intros [= <-]. simpl. eexists th, _, [PERetGet t v src]. repeat split; auto. right. exists v, src. auto.
-  - intros [= <-]. simpl. apply (fin _ [PEPut t v]); auto. apply N1. discriminate.
+    + intros [= <- <-]. simpl. apply (fin _ [PEMiss t]); auto. apply N1. discriminate.
+  - intros [= <- <-]. simpl. apply (fin _ [PENew t (Tok t (p_fresh th))]); auto. apply N1. discriminate.
+  - intros [= <- <-]. simpl. eexists th, _, [PERetGet t v src]. repeat split; auto. right. exists v, src. auto.
+  - intros [= <- <-]. simpl. apply (fin _ [PEPut t v]); auto. apply N1. discriminate.
 Qed.
 
 Definition got_ok (c : pconfig) : Prop :=
